@@ -93,6 +93,9 @@ func defaults(b Bounds) Bounds {
 	if b.TimeoutS == 0 {
 		b.TimeoutS = 20
 	}
+	if b.MaxTimerFires == 0 {
+		b.MaxTimerFires = 2
+	}
 	return b
 }
 
@@ -340,7 +343,7 @@ func writeCexInfo(dir, id string, spec *HarnessSpec, v *Violation) {
 	os.MkdirAll(dir, 0755)
 	info := map[string]interface{}{
 		"property": id, "harness": spec.Name, "label": v.Label, "site": v.Site,
-		"decisions": decisionString(v.Decisions), "values": v.Values, "choices": v.Choices, "trace": v.Trace, "schedule": v.Schedule,
+		"decisions": decisionString(v.Decisions), "values": v.Values, "choices": v.Choices, "trace": v.Trace, "schedule": v.Schedule, "symbols": v.Syms,
 	}
 	os.WriteFile(filepath.Join(dir, "cex.json"), mustJSON(info), 0644)
 }
